@@ -1,6 +1,6 @@
 (** Property C06 -- scrolling stays in its region and feeds the scrollback in order.
     Only pinned statements, closed by [exact], with their assumptions printed. *)
-From Avt Require Import Oracles.Step Proofs.Inv Proofs.VisEq Proofs.BufScroll Proofs.SpecScroll.
+From Avt Require Import Oracles.Step Proofs.Inv Proofs.VisEq Proofs.BufScroll Proofs.SpecScroll Proofs.StepC06C08.
 
 (** LF/IND/NEL on the bottom margin, RI on the top margin, SU, SD, IL, DL: from every state satisfying the invariant the control function succeeds and yields exactly the specified screen, scrollback, cursor and modes (all fields except dirty flags / lazy-trim flag). *)
 Theorem C06_scroll : forall t f e, TInv t -> spec_scroll t f = Some e -> exists t', execute t f = Ok t' /\ vis_norm e = vis_norm t'.
@@ -24,3 +24,9 @@ Theorem C06_scroll_down : forall b a z n p, BGeom b -> a < z -> z <= brows b -> 
 Proof. exact buf_scroll_down_spec. Qed.
 Check C06_scroll_down : forall b a z n p, BGeom b -> a < z -> z <= brows b -> exists b', buf_scroll_down b a z n p = Ok b' /\ b' = b <| lines := firstn (sb_len b) (lines b) ++ spec_scroll_down a z n p (bcols b) (view b) |> /\ BGeom b'.
 Print Assumptions C06_scroll_down.
+
+(** no other control function adds to the scrollback (or touches the parked buffer), and margins change only through DECSTBM / resets *)
+Theorem C06_frame : forall t f t', TInv t -> execute t f = Ok t' -> (may_touch_scrollback f = false -> lines_eqb (tsb t) (tsb t') = true /\ buffer_vis_eqb (other t) (other t') = true) /\ (match f with Decstbm _ _ | Decstr | Ris | Decset _ | Decrst _ | Xtwinops _ => True | _ => top t = top t' /\ bot t = bot t' end).
+Proof. exact C06_frame_holds. Qed.
+Check C06_frame : forall t f t', TInv t -> execute t f = Ok t' -> (may_touch_scrollback f = false -> lines_eqb (tsb t) (tsb t') = true /\ buffer_vis_eqb (other t) (other t') = true) /\ (match f with Decstbm _ _ | Decstr | Ris | Decset _ | Decrst _ | Xtwinops _ => True | _ => top t = top t' /\ bot t = bot t' end).
+Print Assumptions C06_frame.
